@@ -279,12 +279,8 @@ def step (s : St) (ws : List String) : St × List String :=
     | _, _ => (s, ["bad-op"])
   | _ => stepRest s ws
 
-/-- may `unwinding <ws>` run?  No op of this vocabulary is specified to panic (the harness wraps any op);
-an op the model cannot run (`bad-op`) or panics on is refused. -/
-def unwindSafe (s : St) (ws : List String) : Bool :=
-  let out := (step s ws).2
-  !(out.contains "panic") && !(out.contains "bad-op")
-
-def family : Family := withUnwind { σ := St, init := St.init, step := step } unwindSafe
+/-- `unwinding <ws>`: no op of this vocabulary is specified to panic (the harness wraps any op); an op the
+model cannot run (`bad-op`) or panics on is refused (decided on the op's own answer, evaluated once). -/
+def family : Family := withUnwindOut { σ := St, init := St.init, step := step } (fun _ _ => true) panicOrBad
 
 end Woodpile.Driver.CodecWFam
